@@ -248,6 +248,19 @@ func (u *Unit) Report(v *Verdict, c any) bool {
 	return true
 }
 
+// KnownHit counts a hit of an open known finding without ending the case (for checks that go on to examine
+// other aspects of the same case). It returns false if sig is not an open finding.
+func (u *Unit) KnownHit(sig string) bool {
+	loadKnown()
+	if !known[sig] {
+		return false
+	}
+	u.mu.Lock()
+	u.knownHits[sig]++
+	u.mu.Unlock()
+	return true
+}
+
 // Fail is Report + Fatalf.
 func (u *Unit) Fail(t Fataler, v *Verdict, c any) {
 	if u.Report(v, c) {
